@@ -307,7 +307,8 @@ static int compare_int64_double(int64_t x, double y) {
     } else if ((y > JANET_INTMIN_DOUBLE) && (y < JANET_INTMAX_DOUBLE)) {
         double dx = (double) x;
         return compare_double_double(dx, y);
-    } else if (y > ((double) INT64_MAX)) {
+    } else if (y >= ((double) INT64_MAX)) {
+        /* (double) INT64_MAX is 2^63, which is larger than every int64_t and must not be cast back */
         return -1;
     } else if (y < ((double) INT64_MIN)) {
         return 1;
@@ -325,7 +326,8 @@ static int compare_uint64_double(uint64_t x, double y) {
     } else if ((y >= 0) && (y < JANET_INTMAX_DOUBLE)) {
         double dx = (double) x;
         return compare_double_double(dx, y);
-    } else if (y > ((double) UINT64_MAX)) {
+    } else if (y >= ((double) UINT64_MAX)) {
+        /* (double) UINT64_MAX is 2^64, which is larger than every uint64_t and must not be cast back */
         return -1;
     } else {
         uint64_t yi = (uint64_t) y;
